@@ -390,12 +390,21 @@ def rule_pass_cases(ck: Check, rules, n: int):
             w = ck.rng.choice([2, 2, 3, 4, 5])
             c = L.rand_circuit(ck.rng, w, ck.rng.randrange(1, 9),
                                extra=[src, src], p2=0.6)
+            if i % 3 == 1:
+                # role gates around the source, structured locations
+                c = S.role_circuit(ck.rng, w, ck.rng.randrange(1, 7))
+                for _ in range(ck.rng.randrange(1, 3)):
+                    c.append_gate(src, S.rand_loc(ck.rng, w, 2))
+                    g_ = ck.rng.choice(S.role_gates(w))
+                    c.append_gate(g_, S.rand_loc(ck.rng, w, g_.num_qudits),
+                                  S.rand_params(ck.rng, g_))
             if i % 7 == 0 and w >= 3:
                 c.append_gate(CCXGate(), ck.rng.sample(range(w), 3))
                 c.append_gate(src, ck.rng.sample(range(w), 2))
             k = sum(1 for o in c if type(o.gate) is type(src))
             ck.count(('rulepass', name, repr(L.struct_key(c))), k > 0)
             ck.bump('rule_sources_per_case', str(min(k, 4)))
+            ck.bump('rule_cases', name)
 
             def fails(ops, _p=p, _w=w, _src=src):
                 try:
@@ -453,6 +462,7 @@ def rule_pass_cases(ck: Check, rules, n: int):
                 d.gate_set = GateSet(gs)
             ck.count(('sq-decomp', label, opts, repr(gs), circ_desc(c)['ops']
                       .__repr__()))
+            ck.bump('rule_cases', label)
             try:
                 out, _ = run_pass(p, c, d)
             except Exception as e:
@@ -1168,6 +1178,24 @@ def num_case(spec):
                 p = P.IterativeScanningGateRemovalPass(
                     start_from_left=left, success_threshold=thr)
                 res['args'] = (left, thr)
+        elif kind in ('scanrole', 'scanblk'):
+            # removal on circuits with role gates (multiplexed / controlled
+            # rotations at structured locations) and on blocked circuits in
+            # every block variant (operation parameters != frozen ones)
+            n = rng.choice([2, 3])
+            thr = rng.choice([1e-8, 1e-6])
+            if kind == 'scanrole':
+                c = S.role_circuit(rng, n, rng.randrange(2, 6), 0.5)
+                vk = 'flat'
+            else:
+                vk = S.VARIANTS[seed % 4]
+                c = S.variant(rng, S.built_blocks(rng, n, rng.randrange(
+                    2, 5)), vk)
+            removal = True
+            cls = rng.choice([P.ScanningGateRemovalPass,
+                              P.TreeScanningGateRemovalPass])
+            p = cls(left, thr)
+            res['args'] = (cls.__name__, left, thr, vk)
         elif kind == 'exhaustive':
             n = rng.choice([1, 2])
             c = redundant_circuit(rng, n, rng.randrange(2, 4))
@@ -1284,7 +1312,8 @@ def num_case(spec):
 
 NUM_QUICK = {'scan': 24, 'treescan': 16, 'iterscan': 8, 'exhaustive': 8,
              'substitute': 10, 'rebase': 8, 'autorebase': 6, 'qsearch': 8,
-             'leap': 8, 'qfast': 4, 'qpredict': 6, 'pas': 6}
+             'leap': 8, 'qfast': 4, 'qpredict': 6, 'pas': 6, 'scanrole': 6,
+             'scanblk': 8}
 NUM_PASS = {'scan': 'ScanningGateRemovalPass',
             'treescan': 'TreeScanningGateRemovalPass',
             'iterscan': 'IterativeScanningGateRemovalPass',
@@ -1294,7 +1323,9 @@ NUM_PASS = {'scan': 'ScanningGateRemovalPass',
             'qsearch': 'QSearchSynthesisPass', 'leap': 'LEAPSynthesisPass',
             'qfast': 'QFASTDecompositionPass',
             'qpredict': 'QPredictDecompositionPass',
-            'pas': 'PermutationAwareSynthesisPass'}
+            'pas': 'PermutationAwareSynthesisPass',
+            'scanrole': 'ScanningGateRemovalPass',
+            'scanblk': 'ScanningGateRemovalPass'}
 
 
 def numerical_cases(ck: Check, thorough: bool):
@@ -1642,6 +1673,68 @@ def runtime_sample(ck: Check, thorough: bool):
 
 
 # ==========================================================================
+# 8. the catalogue against the live package
+def catalogue_audit(ck: Check):
+    """Every BasePass subclass defined under bqskit.passes must be listed in
+    CATALOGUE (decided here or by a named other property), and every class
+    decided here must have been executed by this run."""
+    import importlib
+    import inspect
+    import pkgutil
+    import re
+    import bqskit.passes as P
+    from bqskit.compiler.basepass import BasePass
+    found = {}
+    for m in pkgutil.walk_packages(P.__path__, 'bqskit.passes.'):
+        try:
+            mod = importlib.import_module(m.name)
+        except Exception:
+            continue
+        for name, o in vars(mod).items():
+            if inspect.isclass(o) and issubclass(o, BasePass) \
+                    and o.__module__ == m.name:
+                found[name] = m.name
+
+    def flat(x):
+        if isinstance(x, dict):
+            for v in x.values():
+                yield from flat(v)
+        else:
+            yield from x
+    listed = {n.split('(')[0] for n in flat(CATALOGUE)}
+    for name in sorted(set(found) - listed):
+        ck.violation(
+            f'catalogue:unlisted-pass:{name}', f'{found[name]}.{name} is a '
+            'pass class that the catalogue of C10 neither exercises nor '
+            'assigns to another property', {'class': name,
+                                            'module': found[name]},
+            found_input=False)
+    here = [n for k, v in CATALOGUE.items() if k != 'decided elsewhere'
+            for n in v if '(abstract)' not in n]
+    ran = {}
+    for key in ('rule_cases', 'structural_cases', 'analytic_cases',
+                'numerical_cases', 'block_cases', 'mgd_cases'):
+        for k, v in (ck.coverage.get(key) or {}).items():
+            for tok in re.split(r'[:\[\]+,]', k):
+                if tok in ('Restore',):
+                    tok = 'RestoreMeasurements'
+                ran[tok] = ran.get(tok, 0) + v
+    if ck.coverage.get('mgd_cases'):
+        ran['MGDPass'] = ran.get('MGDPass', 0) + sum(
+            v for k, v in ck.coverage['mgd_cases'].items() if ':w' in k)
+    table = {n: ran.get(n.split('(')[0], 0) for n in here}
+    table['ForEachBlockPass(C11; here: parameter hand-over to the body)'] = \
+        ran.get('ForEachBlockPass', 0)
+    ck.coverage['catalogue_exercised'] = table
+    for n, k in table.items():
+        if k == 0:
+            ck.violation(
+                f'catalogue:not-exercised:{n.split("(")[0]}', f'{n} is in '
+                'the C10 catalogue but was not executed by this run',
+                {'class': n}, found_input=False)
+
+
+# ==========================================================================
 def replay(ck: Check):
     """./check C10 --replay replays/C10/<h>.json: numerical cases are re-run
     from their (kind, seed); every other case is regenerated by re-running the
@@ -1744,6 +1837,7 @@ def run(ck: Check, replaying: bool = False):
     if not replaying:
         runtime_sample(ck, thorough)
     mark('runtime_sample')
+    catalogue_audit(ck)
     ck.assumptions += [
         'numerical optimisers (Circuit.instantiate, ceres/qfactor/LBFGS) '
         'are abstracted to an arbitrary function returning parameters; '
